@@ -42,9 +42,23 @@ def norm(t):
     return _n(t)
 
 
+_N_CACHE = {}
+
+
 def _n(t):
     if not isinstance(t, tuple) or not t:
         return t
+    hit = _N_CACHE.get(id(t))
+    if hit is not None and hit[0] is t:
+        return hit[1]
+    r = _n_uncached(t)
+    if len(_N_CACHE) > 400000:
+        _N_CACHE.clear()
+    _N_CACHE[id(t)] = (t, r)
+    return r
+
+
+def _n_uncached(t):
     k = t[0]
     if k == 'alt':
         return ('alt', frozenset(_n(x) for x in t[1]))
